@@ -198,7 +198,7 @@ var _ plugintypes.Operator = (*binaryRX)(nil)
 // data is the pattern with the default mode flags already prepended by newRX, so that the byte
 // matcher has the same dot-matches-newline (and multiline) behaviour as the regular one.
 func newBinaryRX(options plugintypes.OperatorOptions, data string) (plugintypes.Operator, error) {
-	re, err := memoizeDo(options.Memoizer, data, func() (any, error) { return binaryregexp.Compile(data) })
+	re, err := memoizeDo(options.Memoizer, "binaryrx:"+data, func() (any, error) { return binaryregexp.Compile(data) })
 	if err != nil {
 		return nil, err
 	}
